@@ -1,9 +1,9 @@
 """Structured generator for the `exec` engine (mostly-valid interchain traffic + faults)."""
 from .core import History
 
-SERVICES = ["c1:s1", "c1:s2", "c2:s1", "c2:s2", "c3:s1", "c2:s3"]
-ORDERED = {"c1:s1": True, "c1:s2": True, "c2:s1": True, "c2:s2": False, "c3:s1": True, "c2:s3": True}
-ADMIN = {"c1": "ca1", "c2": "ca2", "c3": "ca3"}
+SERVICES = ["c1:s1", "c1:s2", "c2:s1", "c2:s2", "c3:s1", "c2:s3", "c4:s1"]
+ORDERED = {"c1:s1": True, "c1:s2": True, "c2:s1": True, "c2:s2": False, "c3:s1": True, "c2:s3": True, "c4:s1": True}
+ADMIN = {"c1": "ca1", "c2": "ca2", "c3": "ca3", "c4": "ca4"}
 USERS = ["u0", "u1", "u2", "u3"]
 
 
@@ -324,7 +324,7 @@ def gen_c07(rng, n, tier):
                     tx = g.tx_req() if r.random() < 0.6 else g.tx_rcpt()
                     ws = tx.split()
                     chain = (ws[2] if ws[5] == "req" else ws[3]).split(":")[0]
-                    ws[1] = {"c1": "ca1", "c2": "ca2", "c3": "ca3"}[chain] if r.random() < 0.8 else p
+                    ws[1] = ADMIN[chain] if r.random() < 0.8 else p
                     txs.append(" ".join(ws))
                 elif m < 0.8:
                     txs.append(f"bvm {p} " + bvm_call(r, g.ids))
